@@ -575,6 +575,10 @@ def run(ctx, tier):
     results += renamed(c02.cow_write_set(ctx), 'C02', 'C03')
     import c07
     results += c07.single_root(ctx, rule='C03.single-root')
+    # once the new header is on disk it is what readers begin from; if the commit can then leave without publishing its free list, the next writer allocates from the old
+    # list -- pages of the snapshot those readers are looking at
+    import commit
+    results += commit.obligations(ctx)['O5']
     return dict(
         results=results, stats=dict(ctx.stats),
         explanation=(
